@@ -481,7 +481,7 @@ def session_events_before(steps):
     return out
 
 
-def oracle_session(steps, style=None):
+def oracle_session(steps, style=None, only_undefined=False):
     """every use of a session must agree with dimensional analysis under the definitions in force at that moment
     (latest definition of each name since the latest clear), whatever was defined, used or redefined before"""
     try:
@@ -493,6 +493,8 @@ def oracle_session(steps, style=None):
     uses = [st for st in steps if st[0] == "use"]
     for i, (st, ob, evs) in enumerate(zip(uses, obs, session_events_before(steps))):
         defs = defs_of(evs)
+        if only_undefined and defs:
+            continue      # C08 speaks about results computed while no definition is active
         try:
             exp = o_dim(st[1], defs)
         except (OutOfDomain, Cyclic):
@@ -503,10 +505,10 @@ def oracle_session(steps, style=None):
     return None
 
 
-def shrink_session(steps, style=None):
+def shrink_session(steps, style=None, only_undefined=False):
     """delta-debug the steps, then shrink the trees of the remaining uses"""
     def fails(s):
-        return oracle_session(s, style) is not None
+        return oracle_session(s, style, only_undefined) is not None
     steps = core.shrink_list(steps, fails)
     for i, st in enumerate(steps):
         if st[0] == "use":
@@ -1149,6 +1151,66 @@ def session_templates():
         for n in chain:
             steps.append(["use", ["bin", "div", leaf([item(n, 1)]), leaf([item("m", 1)])]])
         out.append(steps)
+    return out
+
+
+# ---- C08 after definitions WERE active: define, use, clear through the public API, then trees with NO definition active -----
+def aftermath_probes(rng, names, n=None):
+    """trees for the time after the clear: the formerly defined names are plain symbols again (the expected dimension is by
+    symbol), alone, in products with their former factors, and in sums that match / mismatch by symbol only"""
+    out = []
+    syms = list(names) + ["kg", "m", "s"]
+    for _ in range(n or rng.randrange(2, 5)):
+        name = rng.choice(names)
+        a = leaf([item(name, rng.choice([1, 1, 2, -1]))])
+        k = rng.random()
+        if k < 0.2:
+            t = ["un", rng.choice(["neg", "sqrt"]), a]
+        elif k < 0.4:
+            t = ["bin", rng.choice(["mul", "div"]), a, leaf(rand_umap(rng, syms, maxlen=2))]
+        elif k < 0.55:
+            u = [item(name, 1), item(rng.choice(["m", "s", "kg"]), rng.choice([1, -1]))]
+            t = ["bin", rng.choice(["add", "sub"]), leaf(u), leaf(permuted(rng, u))]                     # equal by symbol
+        elif k < 0.75:
+            former = VARIANTS.get(name, [[["m", 1, 1]]])[0]
+            t = ["bin", rng.choice(["add", "sub"]), a, leaf([list(x) for x in former])]                 # mismatch by symbol now
+        elif k < 0.85:
+            t = ["bin", "pow", a, cst(rng.choice([2, -1, Fraction(1, 2)]))]
+        else:
+            t = rand_tree(rng, rng.choice([1, 2, 3]), lambda r: rand_umap(r, syms, maxlen=3), p_other=0.0)
+        out.append(["use", t])
+    return out
+
+
+def gen_aftermath_session(rng):
+    """definitions are made and USED, then cleared through clear_unit_definitions(); the uses after the clear are C08 cases"""
+    steps, events = [], []
+    for _ in range(rng.choice([1, 1, 2])):
+        chain = rng.choice(CHAINS)
+        for n in chain:
+            e = ["define", n, [list(x) for x in rng.choice(VARIANTS[n])]]
+            steps.append(e)
+            events.append(e)
+            if rng.random() < 0.4:
+                steps.extend(use_trees(rng, events, [n], 1))
+        steps.extend(use_trees(rng, events, chain, rng.randrange(1, 4)))
+        steps.append(["clear"])
+        events.append(["clear"])
+        steps.extend(aftermath_probes(rng, chain))
+    return steps
+
+
+def aftermath_templates():
+    out = []
+    for name, variants in sorted(VARIANTS.items()):
+        body = [list(x) for x in variants[0]]
+        n1 = leaf([item(name, 1)])
+        before = [["use", ["un", "neg", n1]], ["use", ["bin", "mul", n1, leaf([item("m", 1)])]]]
+        after = [["use", ["un", "neg", n1]], ["use", ["bin", "div", n1, leaf([item("kg", 1)])]],
+                 ["use", ["bin", "add", n1, leaf(body)]],
+                 ["use", ["bin", "sub", leaf([item(name, 1), item("m", 1)]), leaf([item("m", 1), item(name, 1)])]]]
+        out.append([["define", name, body]] + before + [["clear"]] + after)
+        out.append([["define", name, body], before[0], ["clear"], ["define", name, body], ["clear"]] + after)
     return out
 
 
